@@ -161,7 +161,15 @@ def struct_str(t):
             s = "elab-" + t[4] + " " + s
         return ((t[2] + " ") if t[2] else "") + s
     if k == "tmpl":
-        a = ",".join("intexpr" if x[0] == "int" else struct_str(x) for x in t[2])
+        def lead(x):
+            # how the written argument starts matters to a lexer/parser (`<::` is a digraph hazard, a leading
+            # cv-qualifier selects another grammar rule)
+            r = render_arg(x)
+            for tok in ("::", "volatile", "const"):
+                if r.startswith(tok):
+                    return "^" + tok + " "
+            return ""
+        a = ",".join("intexpr" if x[0] == "int" else lead(x) + struct_str(x) for x in t[2])
         return ((t[3] + " ") if t[3] else "") + t[5] + "<" + a + ">"
     if k == "ptr":
         return ((t[1] + " ") if t[1] else "") + "ptr(" + struct_str(t[2]) + ")"
@@ -460,6 +468,8 @@ class Scope:
         if id(self) in seen:
             return None
         seen.add(id(self))
+        if self.kind == "class" and name == self.name and getattr(self, "atom", None) is not None:
+            return self.atom, "injected"
         if name in self.types:
             return self.types[name], "local"
         if name in self.usings:
@@ -467,7 +477,7 @@ class Scope:
         for b in self.bases:
             r = b.find_local(name, seen)
             if r:
-                return r[0], "base"
+                return r[0], ("injected-base" if r[1] == "injected" else "base")
         for dscope in self.dirs:
             r = dscope.find_local(name, seen)
             if r:
@@ -526,6 +536,7 @@ class Universe:
         self.atoms.append(a)
         if kind in ("class", "tmplclass"):
             a.inner = Scope(name, "class", scope)
+            a.inner.atom = a
         return a
 
     def build(self):
@@ -606,7 +617,6 @@ class Universe:
             nc.usings["S"] = S
             self.line("using-declaration-in-namespace", "namespace nc { using na::Tm; using na::S; }")
         if r.random() < 0.35:
-            self.add(g, "VB", "class")
             self.line("virtual-base-no-access", "struct PV0 { virtual void g() = 0; }; struct VB : virtual PV0 { void g(); };")
         # placed after the host classes: visible to the global declarations only
         if r.random() < 0.5:
@@ -726,7 +736,11 @@ class DeclGen:
                 # a member of the instantiation: Wrap<X>::type / Wrap<X>::Inner
                 mem = r.choice(["type", "Inner"])
                 inner = spec_str(["tmpl", sp, args, "", True, desc])
-                return ["base", inner + "::" + mem, self.cv(), west, "", "tmpl-member-" + mem]
+                lead = ""
+                for tok in ("::", "volatile", "const"):
+                    if args and render_arg(args[0]).startswith(tok):
+                        lead = "^" + tok
+                return ["base", inner + "::" + mem, self.cv(), west, "", "tmpl-member-" + mem + lead]
             return t
         sp, desc = self.u.spell(a, site)
         elab = ""
